@@ -181,8 +181,8 @@ def run_float32(ctx, n):
         if k % 2 == 0:
             # binary operations whose float32 result overflows although the float64 result does not (operands with entries and defaults
             # that are powers of two near the float32 limit: exactly representable, so there is no double rounding): the default of the
-            # result must overflow to +-inf as torch's elements do (finding D54: it is computed with Python floats and stays finite, which
-            # a float32 tensor cannot hold: to_dense() of the result raises)
+            # result must overflow to +-inf as torch's elements do (D54, fixed: it is computed with Python floats and stayed finite, which
+            # a float32 tensor cannot hold: to_dense() of the result raised)
             huge = [2.0 ** 127, -2.0 ** 127, 2.0 ** 100, -2.0 ** 100, 1.0, 0.0, 2.0]
             a = random_pt(ctx.rng, types, dtype=torch.float32, values=huge, defaults=huge, specials=0.0)
             b_ = random_pt(ctx.rng, types, dtype=torch.float32, values=huge, defaults=huge, specials=0.0)
